@@ -675,10 +675,35 @@ PROPS["C35"] = dict(family="links", level="model_checking", design_ref="4.3",
                     text="Target/Kept are the specification of link resolution; File/Rel of where a link points once boards are files.", note="Trusted: TLC, Json module, the SVG scan (regular expressions on <a href> and <g class>).")
 
 
+# ---------------------------------------------------------------------------------- lsp (C42)
+def corrupt_lsp(lines, pid):
+    for e in lines:
+        if e.get("ev") == "pos" and e.get("got"):
+            e["got"] = e["got"][:-1] + ["zzz"]
+            return "reported board path altered"
+    for e in lines:
+        if e.get("ev") == "refs" and e.get("ranges"):
+            e["ranges"][0]["names"] = 0
+            return "a reference range marked as not naming the key"
+    return None
+
+
+FAMILIES["lsp"] = dict(vdrive="lsp", trace_module="TraceD2Lsp", trace_cfg="TraceD2Lsp.cfg", corrupt=corrupt_lsp, engine="TraceD2Lsp", args={"alphabet": _os.path.join(_SPECS, "ir_alphabet.json"), "n": "300"}, chunk=6000, heap="4g")
+PROPS["C42"] = dict(family="lsp", level="exploration", design_ref="4.4",
+                    technique="TLA+ definition of the innermost board at a position (smallest block containing the offset, none inside a keyword block between boards) evaluated by TLC against d2lsp.GetBoardAtPosition for every line start and random offsets; reference ranges of d2lsp.GetRefRanges sliced out of the source, parsed back and counted against the declarations the board derives; completion calls at positions of the text and of the text cut off there must return",
+                    rule=("the program space is the boards family's (board trees over the ir alphabet without indexed references; program #i from seed i, 2,400 programs; quick takes the 300 VERIF_SEED selects); per program: every line start and 10 random offsets for the board lookup, "
+                          "every board x the keys a, b, a.c, a.b for the reference lookup, 12 completion calls (half on the text cut off at the position). Non-trivial: every program."),
+                    exhaustive=dict(quick=False, thorough=False),
+                    assumptions=["a range names the key when its text, read as a map key by the real parser, has the key's last segment among its segments or connection ends (case-folded)",
+                                 "completeness is a lower bound: at least as many ranges as declarations of the board's derivation whose own path is the key", "multi-file sets are not generated for the LSP calls"],
+                    text="Innermost is the specification of the board lookup; references are validated by slicing the source.", note="Trusted: TLC, Json module, the block offsets recorded by the program writer.")
+
+
 # ------------------------------------------------------------------------------- manifest data
 HOOK_COMMITS = ["9d004ebd4", "879b5d739"]
 
 ENGINES = {
+    "TraceD2Lsp": dict(path="specs/TraceD2Lsp.tla", kind="TLA+ definition of the innermost board at a position and reference-range validity, evaluated by TLC on the results of the real d2lsp functions"),
     "TraceD2Links": dict(path="specs/TraceD2Links.tla, specs/BoardPaths.tla", kind="TLA+ resolution of board links and derivation of output files and relative paths; TLC compares with the real compiler's stored links and the real CLI's hrefs"),
     "TraceD2Imports": dict(path="specs/D2IR.tla, specs/TraceD2Imports.tla, specs/ir_alphabet.json", kind="TLA+ expansion of imports with the import stack (cycle rule) over the D2IR reference interpreter; TLC compares the expansion with the real compiler's result for generated file sets"),
     "TraceD2Boards": dict(path="specs/D2IR.tla, specs/TraceD2Boards.tla, specs/ir_alphabet.json", kind="TLA+ inheritance rule for layers/scenarios/steps over the D2IR reference interpreter; TLC derives and folds the declarations of every board and compares with the real compiler's boards"),
